@@ -179,11 +179,25 @@ func runC10(c *CaseCtx) (res CaseResult) {
 		fam = "dag"
 	default:
 		s, fam = Hostile(r)
+		for r.Intn(3) == 0 && fam != "assignable-not-identical" {
+			// the family over types that Go considers assignable more often
+			s, fam = Hostile(r)
+		}
 		fam = "hostile/" + fam
+	}
+	if r.Intn(6) == 0 {
+		// same model over unnamed / mutually assignable / func / chan types
+		s = exoticize(s, r)
+	}
+	if usesExotic(s) {
+		res.obs("cases_over_exotic_types", 1)
 	}
 	// the conversion target: a parameter type of the generated target (so
 	// that constructive cases are derivable), or a random type
-	T := r.Intn(len(types))
+	T := r.Intn(nTypes)
+	if usesExotic(s) && r.Intn(2) == 0 {
+		T = nTypes + r.Intn(len(exoticTypes))
+	}
 	if len(s.Target.In) > 0 && r.Intn(4) > 0 {
 		T = s.Target.In[0].Type
 		if s.Target.In[0].Name != "" || s.Target.In[0].Sub != "" {
